@@ -341,6 +341,18 @@ func (sc *ArshalMarshal) Run(t *core.Tape, env *Env) (any, []core.Violation) {
 				// not reachable when mOK; kept for symmetry
 			}
 		}
+		if werr != nil && !wp {
+			// the pooled streaming encoder that just failed (write fault, or a value
+			// that cannot be marshalled half-way through) is reused by the next call
+			sw3 := core.NewSimWriter(core.WritePlan{})
+			e3, p3, _, _ := guarded(func() error { return json.MarshalWrite(sw3, []any{"after", 1}, opts...) })
+			st.Steps++
+			if !p3 && e3 == nil {
+				if validOne("MarshalWrite-after-failed-MarshalWrite", sw3.Got, false) {
+					return p, viols
+				}
+			}
+		}
 		if werr != nil && !wp && mOK && canCompareBytes {
 			// the pooled streaming encoder that just failed is reused by the next call
 			sw2 := core.NewSimWriter(core.WritePlan{})
